@@ -88,6 +88,15 @@ def enqueue_before_anything_can_fail(ck, rule):
     ws = nodes_writing_attr(g, '_output')
     enq = nodes_where(g, lambda n: any(call_name(c) == 'put_nowait' and
                                        recv(c) == 'self.circuit.sblock_queue' for c in node_calls(n)))
+    if not (len(ws) >= 1 and enq):
+        run_ = set_output_run(ck)
+        if run_['applicable']:
+            bad_ = run_['bad']['queued first'] + [m for m in run_['bad']['changes'] if 'queued' in m]
+            ck.ob(rule, f"{so.fid} :: change queued before any delivery can fail", not bad_,
+                  f"abstract run ({run_['cases']} cases, one with a failing first delivery): the value is "
+                  "stored and the block queued before the first event is sent" if not bad_ else
+                  '; '.join(bad_[:3]), so, so.node)
+            return
     ck.need(rule, len(ws) >= 1 and enq, "SBlock.set_output: write / enqueue not recognised")
     wit = None
     for w in ws:
@@ -164,3 +173,157 @@ def unknown_event_not_fatal(ck, rule, construct_suffix='unknown event not fatal'
           "an unknown event type is not simply re-raised (it may abort the simulation)", ev,
           (unk[0].ast if unk else (gen[0].ast if gen else ev.node)))
     return ok
+
+
+class _SelfUnequal:
+    """Stands for a value that compares unequal to itself (math.nan): assigning it twice is a change."""
+    def __eq__(self, other):
+        return False
+    __hash__ = None
+
+    def __repr__(self):
+        return '<nan-like>'
+
+
+def set_output_run(ck):
+    """Layout-independent decision for SBlock.set_output: the function (with every helper method of
+    SBlock it calls) is interpreted by the mini evaluator on the complete case grid
+        (previous, new) in {first value after UNDEF, unequal, equal-but-not-identical, identical,
+                            self-unequal object}  x  0 / 2 on_output events  x  0 / 2 on_every_output events
+        + UNDEF as the new value  + a first on_output event whose delivery raises
+    with recording stand-ins for the queue and the events, and the observable trace is compared with
+    the documented one: a changed value is stored and the block queued (both before any event is
+    sent), then the on_output events in configured order, then the on_every_output events in
+    configured order, each sent as (self, trigger='output', previous=<old>, value=<new>); an
+    unchanged value only sends the on_every_output events; UNDEF raises ValueError without effect.
+    -> {'applicable': bool, 'why': str, 'bad': {aspect: [messages]}} (cached on ck)."""
+    if getattr(ck, '_set_output_run', None) is not None:
+        return ck._set_output_run
+    from sa.minieval import MiniEval, Obj
+    from sa.loader import AnalysisError
+    prog = ck.prog
+    so = prog.func('block:SBlock.set_output')
+    sb = prog.cls('block:SBlock')
+    res = {'applicable': False, 'why': '', 'bad': {}, 'cases': 0}
+    params = [a.arg for a in so.node.args.args]
+    if len(params) != 2:
+        res['why'] = 'unexpected signature'
+        ck._set_output_run = res
+        return res
+    vparam = params[1]
+
+    def resolve(text):
+        if text.startswith('self.') and text[5:].isidentifier():
+            f_ = prog.resolve_method(sb, text[5:])
+            if f_ is not None and f_.cls is not None and f_.cls.name in ('SBlock', 'Block') and \
+                    f_.name not in ('event', 'send') and not prog.is_dummy(f_):
+                return f_.node
+        return None
+    UNDEF = type('UNDEF', (), {'__repr__': lambda s: '<UNDEF>', '__bool__': lambda s: False})()
+    nan = _SelfUnequal()
+    SELF = 'SELF'
+    pairs = [('first value', UNDEF, 5, True), ('unequal', 2, 3, True), ('equal, not identical', 1, True, False),
+             ('identical', 7, 7, False), ('self-unequal object', nan, nan, True)]
+    bad = {'payload': [], 'changes': [], 'order': [], 'undef': [], 'queued first': []}
+
+    def add(k, m):
+        if m not in bad[k]:
+            bad[k].append(m)
+    try:
+        for label, prev, new, changed in pairs:
+            for n_out in (0, 2):
+                for n_every in (0, 2):
+                    for failing in ((False, True) if (n_out and changed) else (False,)):
+                        trace = []
+
+                        def mk(name, fail=False):
+                            def send(*a, **k):
+                                trace.append(('send', name, a, k))
+                                if fail:
+                                    raise RuntimeError('delivery failed')
+                                return True
+                            return Obj(name, {'send': send})
+                        outs = tuple(mk(f'on_output[{i}]', fail=(failing and i == 0)) for i in range(n_out))
+                        evs = tuple(mk(f'on_every_output[{i}]') for i in range(n_every))
+                        env = {'self': SELF, vparam: new, 'UNDEF': UNDEF, 'block.UNDEF': UNDEF,
+                               'self._output': prev, 'self._output_events': outs,
+                               'self._every_output_events': evs,
+                               'self.circuit.sblock_queue.put_nowait': lambda x: trace.append(('enqueue', x)),
+                               '__setattr__': lambda k, v: trace.append(('write', k, v))}
+                        out = MiniEval('set_output run', env, resolve=resolve).run(so.node.body)
+                        res['cases'] += 1
+                        case = f"{label} ({prev!r} -> {new!r}), {n_out} on_output / {n_every} on_every_output" + \
+                            (", first delivery raises" if failing else "")
+                        writes = [t for t in trace if t[0] == 'write' and t[1] == 'self._output']
+                        enq = [t for t in trace if t[0] == 'enqueue']
+                        sends = [t for t in trace if t[0] == 'send']
+                        first_send = next((i for i, t in enumerate(trace) if t[0] == 'send'), len(trace))
+                        if changed:
+                            if len(writes) != 1 or writes[0][2] is not new:
+                                add('changes', f"{case}: the new value is not stored exactly once ({writes})")
+                            if len(enq) != 1 or enq[0][1] is not SELF:
+                                add('changes', f"{case}: the block is not queued exactly once for the simulator ({enq})")
+                            if any(trace.index(t) > first_send for t in writes + enq):
+                                add('queued first', f"{case}: an event is sent before the value is stored and the block queued")
+                        else:
+                            if writes or enq:
+                                add('changes', f"{case}: an unchanged value is stored / queued again")
+                        if failing:
+                            if out[0] == 'return':
+                                add('order', f"{case}: the failure of an output event is swallowed")
+                            continue
+                        want = ([o.name for o in outs] if changed else []) + [e_.name for e_ in evs]
+                        got = [t[1] for t in sends]
+                        if got != want:
+                            add('order' if sorted(got) == sorted(want) else 'changes',
+                                f"{case}: events sent {got}, documented {want}")
+                        for t in sends:
+                            a, k = t[2], t[3]
+                            if not (len(a) == 1 and a[0] is SELF and set(k) == {'trigger', 'previous', 'value'}
+                                    and k['trigger'] == 'output' and k['previous'] is prev and k['value'] is new):
+                                add('payload', f"{case}: {t[1]} sent with {a}, {k}")
+                        if out != ('return', None) and out[0] != 'return':
+                            add('changes', f"{case}: ends with {out}")
+        # UNDEF is refused without any effect
+        trace = []
+        env = {'self': SELF, vparam: UNDEF, 'UNDEF': UNDEF, 'block.UNDEF': UNDEF, 'self._output': 1,
+               'self._output_events': (), 'self._every_output_events': (),
+               'self.circuit.sblock_queue.put_nowait': lambda x: trace.append(('enqueue', x)),
+               '__setattr__': lambda k, v: trace.append(('write', k, v))}
+        out = MiniEval('set_output run', env, resolve=resolve).run(so.node.body)
+        res['cases'] += 1
+        if out[0] != 'raise' or trace:
+            add('undef', f"UNDEF as the new value: {out}, effects {trace}")
+        res['applicable'] = True
+    except AnalysisError as err:
+        res['why'] = err.reason
+    res['bad'] = bad
+    ck._set_output_run = res
+    ck.abstract_cases += res['cases']
+    return res
+
+
+def set_output_helpers(ck):
+    """Private methods of SBlock that write `_output` and are called from SBlock.set_output (directly
+    or through each other) and from nowhere else: the setter split into helpers."""
+    from sa.loader import own_nodes
+    prog = ck.prog
+    sb = prog.cls('block:SBlock')
+    out = []
+    for name, m in sb.methods.items():
+        if not name.startswith('_') or name.startswith('__') or name == 'set_output':
+            continue
+        if not any(isinstance(t, ast.Attribute) and t.attr == '_output' and isinstance(t.ctx, ast.Store)
+                   for t in ast.walk(m.node)):
+            continue
+        callers = set()
+        for f2 in prog.pkg_funcs():
+            for c in own_nodes(f2.node):
+                if isinstance(c, ast.Call) and isinstance(c.func, ast.Attribute) and c.func.attr == name:
+                    callers.add(f2.fid)
+                elif isinstance(c, ast.Attribute) and c.attr == name and not isinstance(c.ctx, ast.Store):
+                    callers.add(f2.fid)
+        if callers and callers <= {'block:SBlock.set_output'} | {f"block:SBlock.{n}" for n in sb.methods if n.startswith('_')}:
+            if 'block:SBlock.set_output' in callers or any(c.endswith(tuple(o.name for o in out)) for c in callers):
+                out.append(m)
+    return out
